@@ -1320,7 +1320,7 @@ pub fn prop() -> DiceProp {
         nightly: false,
         check_only: false,
         ndice: 420,
-        quick: (700, 1),
+        quick: (1500, 1),
         thorough: (3000, 8),
         build,
         fixed,
